@@ -23,6 +23,9 @@ func Generate(r *rand.Rand, profile string) *Scenario {
 	if profile == "unobs" {
 		return generateUnobstructed(r)
 	}
+	if profile == "topo" {
+		return generateTopology(r)
+	}
 	pick := func(vs ...int) int { return vs[r.Intn(len(vs))] }
 	chance := func(p float64) bool { return r.Float64() < p }
 	sc := &Scenario{Class: profile}
@@ -463,6 +466,94 @@ func generateUnobstructed(r *rand.Rand) *Scenario {
 		k++
 		sc.Jobs = append(sc.Jobs, Job{Name: fmt.Sprintf("j%d", k), Queue: qaIdx, Prio: 75, Preempt: 1, Min: 1, Age: 600, LastStart: -1})
 		sc.Pods = append(sc.Pods, Pod{Name: fmt.Sprintf("j%d-p1", k), Job: k, Cpu: 500, Mem: 500, Gpu: 1, Phase: "P"})
+	}
+	sc.Normalize()
+	return sc
+}
+
+// generateTopology builds clusters with a 1-3 level topology (unbalanced, some nodes missing a
+// label), gangs with a required level, partially running constrained gangs, a job naming a
+// missing topology, and competing unconstrained work so that reclaim/preempt/consolidation see
+// constrained jobs too.
+func generateTopology(r *rand.Rand) *Scenario {
+	pick := func(vs ...int) int { return vs[r.Intn(len(vs))] }
+	chance := func(p float64) bool { return r.Float64() < p }
+	sc := &Scenario{Class: "topo"}
+	sc.Cfg = Cfg{Placement: []string{"binpack", "spread"}[r.Intn(2)], Consolidation: pick(0, 1), Signatures: pick(0, 1),
+		ConsReclaim: pick(0, 1), SatMult: 1000, Cycles: pick(1, 2, 3), Env: "closed", FullHier: 1}
+	nl := pick(1, 2, 2, 3)
+	keys := []string{"t/zone", "t/block", "t/rack"}[:nl]
+	sc.Topo = Topology{Name: "topo1", Levels: keys}
+	nn := pick(3, 4, 4, 5)
+	for i := 0; i < nn; i++ {
+		n := Node{Name: fmt.Sprintf("n%d", i+1), Cpu: 16000, Mem: 64000, Pods: 110, Gpus: pick(1, 2, 2), GpuMem: 40000, Ready: 1, Labels: map[string]string{}}
+		// domain labels: zone by halves, block by pairs, rack per node-ish (unbalanced)
+		vals := []string{fmt.Sprintf("z%d", i*2/nn), fmt.Sprintf("b%d", i/2), fmt.Sprintf("r%d", (i+1)/2)}
+		for k := 0; k < nl; k++ {
+			if chance(0.12) {
+				continue // node lacks this level's label
+			}
+			n.Labels[keys[k]] = vals[k]
+		}
+		sc.Nodes = append(sc.Nodes, n)
+	}
+	sc.Queues = []Queue{{Name: "d1", Parent: 0, Prio: 100, GQ: -1, GL: -1, GW: 1, CQ: -1, CL: -1, MQ: -1, ML: -1},
+		{Name: "q1", Parent: 1, Prio: 100, GQ: pick(0, 1000, 2000), GL: -1, GW: 1, CQ: -1, CL: -1, MQ: -1, ML: -1},
+		{Name: "q2", Parent: 1, Prio: 100, GQ: pick(1000, 2000, 4000), GL: -1, GW: 1, CQ: -1, CL: -1, MQ: -1, ML: -1}}
+	used := make([]int, nn)
+	nj := pick(2, 3, 4)
+	for j := 0; j < nj; j++ {
+		size := pick(2, 2, 3)
+		job := Job{Name: fmt.Sprintf("j%d", j+1), Queue: 2 + r.Intn(2), Prio: pick(50, 50, 75), Preempt: 1, Min: size, Age: 600 + 60*j, LastStart: -1}
+		if chance(0.75) {
+			job.Topo = "topo1"
+			job.TopoReq = 1 + r.Intn(nl)
+		}
+		if chance(0.08) {
+			job.Topo = "missing-topology"
+			job.TopoReq = 1
+		}
+		if chance(0.3) {
+			job.Min = 1 + r.Intn(size) // elastic
+		}
+		sc.Jobs = append(sc.Jobs, job)
+		// an unconstrained job may already run (anywhere it fits); constrained ones start pending, or
+		// with ONE pod running (pinning the domain) when elastic with min 1
+		for k := 0; k < size; k++ {
+			p := Pod{Name: fmt.Sprintf("j%d-p%d", j+1, k+1), Job: j + 1, Cpu: 500, Mem: 500, Gpu: 1, Phase: "P"}
+			runIt := (job.Topo == "" && chance(0.6)) || (job.Topo == "topo1" && job.Min == 1 && k == 0 && chance(0.5))
+			if runIt {
+				for _, ni := range r.Perm(nn) {
+					if used[ni] < sc.Nodes[ni].Gpus {
+						used[ni]++
+						p.Phase, p.Node = "R", ni+1
+						break
+					}
+				}
+			}
+			sc.Pods = append(sc.Pods, p)
+		}
+		// unconstrained running job must be a complete gang or not running at all
+		if job.Topo == "" {
+			run := 0
+			for _, p := range sc.Pods[len(sc.Pods)-size:] {
+				if p.Phase == "R" {
+					run++
+				}
+			}
+			if run > 0 && run < job.Min {
+				for i := len(sc.Pods) - size; i < len(sc.Pods); i++ {
+					if sc.Pods[i].Phase == "R" {
+						used[sc.Pods[i].Node-1]--
+						sc.Pods[i].Phase, sc.Pods[i].Node = "P", 0
+					}
+				}
+			} else if run > 0 {
+				sc.Jobs[j].LastStart = 36000
+			}
+		} else if sc.Pods[len(sc.Pods)-size].Phase == "R" {
+			sc.Jobs[j].LastStart = 36000
+		}
 	}
 	sc.Normalize()
 	return sc
